@@ -87,6 +87,44 @@ S = {
            "f32 dot / norm / euclid on AVX2 WITHOUT FMA (direct *_avx2_nofma_* call or a mask without FMA), >= 128 elements",
            "demo: cargo run --offline (17 results differ / exit 1; exit 0 without)", {}),
 }
+
+# ---- second round (different mechanisms / back ends) -------------------------------------------------------------
+S.update({
+ "C01-2": ("C01", "generic_min_vertical: scalar tail replaced by one overlapping last register (reads a, b and WRITES result before their start for 0 < len < lane)",
+           "min_vertical with 0 < len < lane on a SIMD back end, any build profile (pointer arithmetic: no debug panic)",
+           "demo: cargo run --offline (33 OOB writes + SIGSEGV on a guard page / exit 1; exit 0 without)",
+           {"C01": "safe-oob:export_safe_vertical_op:{any,const}", "C07": "sym-oob:KMinV (A) + C07:memory:*", "C08": "sym-oob + memory:*"}),
+ "C02-2": ("C02", "Avx512 <i8>::mul_dense: blend mask literal 0xAAAAAAAAAAAAAAA (15 A's): bytes 61 and 63 of every register come from the wrong product",
+           "nightly + AVX-512, i8/u8 multiply, length >= 512 (dense loop only), index % 64 in {61, 63}",
+           "demo: cargo +nightly run --offline (832 wrong elements / exit 1; exit 0 without)",
+           {"C02": "C02:spec:{i8,u8}_xany_avx512_nofma_mul_{value,vector} (n=512)", "C13": "reg:Avx512:{i8,u8}:{mul_dense,fmadd_dense}", "C03": "C03:spec:{i8,u8}_xany_avx512_nofma_{dot,squared_euclidean,...}"}),
+ "C03-2": ("C03", "Avx512 <i16>::fmadd: _mm512_adds_epi16 (saturating) instead of the wrapping add",
+           "nightly + AVX-512, i16 dot/norm/euclid, len % 256 >= 32, a lane partial sum overflowing i16",
+           "demo: cargo +nightly run --offline (2570 mismatches / exit 1; exit 0 without)",
+           {"C03": "C03:spec:i16_xany_avx512_nofma_{dot,squared_euclidean,squared_norm} (n=65)", "C13": "reg:Avx512:i16:fmadd"}),
+ "C05-2": ("C05", "Avx512 <u8>::max_to_value combines the 256-bit halves with the SIGNED <Avx2 as SimdRegister<i8>>::max",
+           "nightly + AVX-512, u8 horizontal max, len >= 64, max >= 128 facing a value < 128 in the other half",
+           "demo: cargo +nightly run --offline (144385 wrong / exit 1; exit 0 without)",
+           {"C05": "C05:spec:u8_xany_avx512_nofma_max_horizontal (n=64, special data)", "C13": "reg:Avx512:u8:max_to_value"}),
+ "C07-2": ("C07", "generic_min_horizontal: scalar tail replaced by an overlapping register load before the slice for 0 < dims < lane",
+           "min_horizontal with 0 < len < lane on a SIMD back end",
+           "demo: cargo run --offline (1003 out-of-slice results + SIGSEGV / exit 1; exit 0 without)",
+           {"C07": "sym-oob:KMinH + C07:memory:* (left guard page) + C07:spec:*", "C05": "sym-oob + C05:spec:*", "C01": "safe-oob:export_safe_horizontal_op:{any,const}"}),
+ "C12-2": ("C12", "export_safe_horizontal_op!, xconst arm only: `if DIMS == 1 { return a[0]; }` (skips the fold into the neutral start value)",
+           "safe xconst sum / min_horizontal / max_horizontal, float type, DIMS == 1, the element -0.0 (sum) or NaN (min/max)",
+           "demo: cargo run --offline (6 mismatches / exit 1; exit 0 without)",
+           {"C12": "translator: unexpected statement in the macro arm (theorems over the regenerated tables cannot be re-established) - the FIRST versions only reported no-failing-input-found; after adding DIMS = 1 exhaustively over the special float values the const-vs-any run reports safe-const-any:<routine>"}),
+ "C13-2": ("C13", "Avx2 <i16>::max_to_value: the four fold accumulators start at 0 instead of i16::MIN",
+           "i16 horizontal max on AVX2 / AVX-512 (delegates) with every lane negative",
+           "demo: cargo run --offline (12 mismatches / exit 1; exit 0 without)",
+           {"C13": "reg:Avx2:i16:max_to_value, reg:Avx512:i16:max_to_value", "C05": "C05:spec:i16_xany_{avx2,avx512}_nofma_max_horizontal (n=0: identity must be i16::MIN)"}),
+ "C15-2": ("C15", "transpose_matrix: the result-length assert_eq! turned into debug_assert_eq! (\"validated again below\" - not on the scalar path)",
+           "release build, an element type on the scalar path (i32, u8, u16, u128...), width, height >= 2, result.len() != data.len()",
+           "demo: cargo run --release --offline (4 violations / exit 1; exit 0 without)",
+           {"C15": "transpose-mismatch-silent:release, transpose-mismatch-crash:release (+ the shape-check form read from the source refutes C15_rejects for release)"}),
+})
+S["C06-1"] = (S["C06-1"][0], S["C06-1"][1], S["C06-1"][2], S["C06-1"][3], {"C06": "C06:spec:<all cosine exports> (n=0 and zero vectors: specification says 0) - 56 violations"})
+S["C04-1"] = (S["C04-1"][0], S["C04-1"][1], S["C04-1"][2], S["C04-1"][3], {"C04": "bound:f32_xany_avx2_nofma_{dot,squared_norm,squared_euclidean} and exact:* (n=139), bound:f32_xany_dot[mask=4] (safe API under the no-FMA mask)", "C13": "reg:Avx2:f32:fmadd_dense"})
 for name, (prop, change, needs, demo, caught) in S.items():
     d = os.path.join(ROOT, name)
     os.makedirs(d, exist_ok=True)
